@@ -15,6 +15,8 @@ def main(tier):
         parts = []
         if tier == "quick":
             parts.append(("text", {"oracle": "c16", "alphabet": "sigma", "maxlen": 3, "seps": "0,2,5"}))
+            # every line-ending style (LF, CRLF, lone CR, tab) at the shorter bound
+            parts.append(("text", {"oracle": "c16", "alphabet": "sigma", "maxlen": 2, "seps": "1,3,4"}))
             parts.append(("text", {"oracle": "c16", "alphabet": "delims", "maxlen": 5, "seps": "0,5"}))
             parts.append(("files", {"oracle": "c16", "list": flist, "edit-max-tokens": 200}))
         else:
